@@ -33,6 +33,9 @@ def run_wire_case(res: dict, params: dict):
         sizes[rng.randrange(n_msgs)] = rng.choice([70000, 150000, 400000])
     how = [rng.choice(['send', 'send', 'queue']) for _ in range(n_msgs)]
     gaps = [rng.choice([0, 0, 1, 2, 5]) for _ in range(n_msgs)]
+    # the other direction: the scripted peer writes the frames back-to-back (one write), the client has to deliver
+    # every message, in order - a frame is exactly its length prefix long when READ from the wire, too
+    inbound = random.Random(f"{params['seed']}:C01:wire:dir:{params['i']}").random() < 0.35
     viol: list = []
     obs = {'wire_runs': 0, 'wire_frames_parsed': 0, 'wire_big_messages': 0, 'wire_sends_suspended': 0}
 
@@ -65,6 +68,23 @@ def run_wire_case(res: dict, params: dict):
             else:
                 m = PeerPlaceInQueueReply.Request('x' * size + f'\\file{k}.mp3', 1000 + k)
             msgs.append(m)
+        if inbound:
+            from aioslsk.events import MessageReceivedEvent
+            received = []
+            me.listen(MessageReceivedEvent, lambda ev: received.append(ev.message) if ev.connection is conn else None)
+            link.send(*msgs)
+            await settle(5.0)
+            obs['wire_runs'] += 1
+            obs['wire_inbound_runs'] = obs.get('wire_inbound_runs', 0) + 1
+            obs['wire_frames_parsed'] += len(received)
+            detail = {'sizes': sizes, 'obfuscated': obf, 'direction': 'peer->client', 'delivered': len(received)}
+            if [repr(m) for m in received] != [repr(m) for m in msgs]:
+                viol.append(('wire:inbound-messages-differ-from-the-frames-written',
+                             dict(detail, connection_state=conn.state.name,
+                                  first_difference=next((k for k, (a, b) in enumerate(zip(received, msgs)) if repr(a) != repr(b)),
+                                                        min(len(received), len(msgs))))))
+            await w.stop_clients()
+            return detail
         tasks = []
         iters0 = w.loop.iterations
 
